@@ -179,7 +179,10 @@ func c08Setup(shapes []c08Shape) *pg.Prog {
 		}
 		first.Methods = append(first.Methods,
 			pg.Method{Name: "AaaDeclaresTheDefaultNames", SrcType: "LInner", DstType: "LInner2", SrcPtr: true, DstPtr: true, SrcName: "src", DstName: "dst", Extras: []pg.Param{{Name: "arg0", Type: "int"}}},
-			pg.Method{Name: "AabReceiverCalledSrc", SrcType: "LInner2", DstType: "LInner", SrcPtr: true, DstPtr: true, Recv: "src"})
+			pg.Method{Name: "AabReceiverCalledSrc", SrcType: "LInner2", DstType: "LInner", SrcPtr: true, DstPtr: true, Recv: "src"},
+			// blank names next to declared ones that look like the default names: whatever the blank parameters are called in
+			// the generated function, the parameter list has to be legal Go
+			pg.Method{Name: "AacBlankNamesNextToDefaultLookingOnes", SrcType: "LInner", DstType: "LInner2", SrcPtr: true, DstPtr: true, SrcName: "_", Extras: []pg.Param{{Name: "arg1", Type: "int"}, {Name: "_", Type: "string"}, {Name: "src", Type: "bool"}}})
 	}
 	if len(shapes) == 1 && !shapes[0].legal() {
 		// an illegal shape is not alone: a legal method that sorts after it must not make the run succeed
